@@ -361,10 +361,21 @@ class _FakeRun(object):
         self.loaded = []
 
     def as_str_list(self, rid):
-        return list(self.cols) + [str(rid)]
+        # the stand-in for RunId.as_str_list: the real one is exercised by the session histories (tabs and
+        # line breaks in extra_args, input sizes, variable values, tags); here the cells go through the
+        # repository's own cell function, if the tree has one
+        try:
+            from rebench.model import as_table_cell
+        except ImportError:
+            def as_table_cell(text):
+                return text
+        return [as_table_cell(c) for c in self.cols] + [str(rid)]
 
     def loaded_data_point(self, data_point, _warmup):
         self.loaded.append(list(data_point.get_measurements()))
+
+    def is_first_copy(self, _invocation, _iteration, _source):
+        return True
 
 
 _LINE_PERS = {}
@@ -478,7 +489,9 @@ def line_check(ck, n):
         ok = len(parsed) == 1 and parsed[0] is not None
         if ok:
             p = parsed[0]
-            ok = (p['inv'], p['it'], p['unit'], p['crit'], p['rid']) == (c['inv'], c['it'], c['unit'], c['crit'], c['rid']) \
+            # "the same unit, criterion": as labels on one line -- a tab / line break in them is written as a space
+            ok = (p['inv'], p['it'], p['unit'], p['crit'], p['rid']) == (c['inv'], c['it'], c06.one_line(c['unit']),
+                                                                          c06.one_line(c['crit']), c['rid']) \
                 and abs(Fraction(p['value']) - Fraction(c['value'])) <= Fraction(1, 2000000) + Fraction(1, 10 ** 15) * abs(Fraction(c['value']))
         if not ok and classify_line(c) in UNREACHABLE:
             # no adapter can deliver such a string any more (JMH's unit pattern is [^\\r]+): the line-level
@@ -639,14 +652,13 @@ def judge_history(ck, inp, probe, outputs, observed, ans, klass=None):
         if getattr(ob, 'reloaded', None) is not None and not ob.crash and ob.status != 'ui_error':
             want = set()
             for i, invs in recorded.items():
-                if run_sep_class(probe.runs[i]) == 'newline_in_run_columns':
-                    continue      # known at line level (C07-newline-in-run-columns): nothing of such a run reloads
                 for inv in invs:
                     for j, msx in enumerate(outputs[i][inv - 1]):
                         for (crit, unit, v) in msx:
-                            want.add((i, inv, j + 1, crit, unit, float(c06.fmt6_independent(v))))
-            got = set((k, a, b, c, u, round(float(v), 6)) for (k, a, b, c, u, v) in ob.reloaded
-                      if k is None or run_sep_class(probe.runs[k]) != 'newline_in_run_columns')
+                            # criterion and unit as labels on one line (a tab / line break is written as a space)
+                            want.add((i, inv, j + 1, c06.one_line(crit), c06.one_line(unit),
+                                      float(c06.fmt6_independent(v))))
+            got = set((k, a, b, c, u, round(float(v), 6)) for (k, a, b, c, u, v) in ob.reloaded)
             want = set((k, a, b, c, u, round(v, 6)) for (k, a, b, c, u, v) in want)
             if got != want:
                 missing = sorted(want - got, key=str)[:4]
@@ -740,7 +752,7 @@ def special_history(ck, name, data):
 
         def spy_add(self, data_point, warmup):
             for m in data_point.get_measurements():
-                written.append((m.invocation, m.iteration, m.criterion, m.unit))
+                written.append((m.invocation, m.iteration, c06.one_line(m.criterion), c06.one_line(m.unit)))
             return orig_add(self, data_point, warmup)
         wd2 = os.path.join(ck.scratch, 'special2-' + name)
         os.makedirs(wd2)
